@@ -325,7 +325,21 @@ def fam_proc(rng, big):
     return sc
 
 
-FAMILIES = {"stream": fam_stream, "shared-seq": fam_shared_seq, "close": fam_close, "contend": fam_contend, "dgram": fam_dgram,
+def fam_errinj(rng, big):
+    """the kernel answers some calls with an error (ECONNRESET injected by the interposer): the op must raise, the bytes
+    accepted before it stay delivered exactly once, later operations on the same stream continue where the kernel is"""
+    kind = rng.choice(["pipe", "unix", "tcp"])
+    total = pick_size(rng, min(big, 600000))
+    sc = {"family": "errinj", "streams": [{"kind": ":" + kind}], "payload_sizes": [total], "fibers": [], "expects": [], "complete": True}
+    sc["fibers"].append({"name": "w", "prog": writer_prog(rng, 0, 1, 0, total, kind, maxparts=8)})
+    n = pick_read_n(rng, total)
+    while not small_reads_ok(total, n):
+        n *= 16
+    sc["fibers"].append({"name": "r", "prog": [["drain", 0, 0, rng.choice(["read", "chunk"]), n, True]]})
+    return sc
+
+
+FAMILIES = {"errinj": fam_errinj, "stream": fam_stream, "shared-seq": fam_shared_seq, "close": fam_close, "contend": fam_contend, "dgram": fam_dgram,
             "proc": fam_proc}
 
 
@@ -344,6 +358,8 @@ def gen_faults(rng, sc):
         f = {"eagain": 0, "short": 700, "eintr": 0}
     else:
         f = {"eagain": 600, "short": 0, "eintr": 200}
+    if sc["family"] == "errinj":
+        f["err"] = rng.choice([10, 30, 80])
     f["seed"] = rng.next() >> 1
     return f
 
@@ -436,6 +452,17 @@ def fault_counts(trace):
 
 
 def oracle(sc, res):
+    """Never raises: output of a misbehaving implementation that cannot be interpreted is itself a finding."""
+    try:
+        return oracle_inner(sc, res)
+    except Exception as e:   # noqa: BLE001
+        import traceback
+        return [("output-uninterpretable:" + sc.get("family", "?"),
+                 "the scenario's output could not be interpreted by the oracle (%s: %s): %s | stdout tail: %r"
+                 % (type(e).__name__, e, traceback.format_exc()[-300:], res.get("stdout", "")[-300:]))], []
+
+
+def oracle_inner(sc, res):
     """Direct check of the property text on one run.  Returns list of (signature, description)."""
     fails = []
     ops, fibers, alldone = parse_events(res["stdout"])
@@ -592,6 +619,9 @@ def oracle(sc, res):
                                       % (rend, o["fiber"], o["idx"], n, L, sinklen - total_after)))
             elif st == "ok nil":
                 seen_nil = True
+            elif st.startswith("err partial="):
+                # a read that raised after it had already taken bytes from the kernel (they are in the sink)
+                total_after += int(st.split()[1].split("=")[1])
             # raised errors are allowed by the property ("completes or raises"); specific expectations are in `expects`
         if sc.get("complete") and not sc.get("dgram"):
             last = rs[-1]["status"] if rs else ""
